@@ -10,5 +10,11 @@ import Tie.Flags
 #print axioms Sourcer.C01_failed_option_leaves_no_trace
 #print axioms Sourcer.C01_lookahead_restores
 #print axioms Sourcer.C01_longest_first_on_ties
+#print axioms Sourcer.C03_len_bounds
+#print axioms Sourcer.C03_sep_allow_empty
+#print axioms Sourcer.C03_sep_require_separator
+#print axioms Sourcer.C03_sep_trailer
+#print axioms Sourcer.C03_sep_keeps_separators
+#print axioms Sourcer.C03_no_effect_on_failure
 #print axioms Tie.implFlags_sound -- module Tie.Flags
 #print axioms Tie.impl_refines -- module Tie.Flags
